@@ -55,6 +55,9 @@ func (interp *Interpreter) SingleStepStateTransition(pc ProgramCounter) (ExitRea
 		return exitReason, 0
 	case HOST_CALL: // host-call: newPC = pc
 		return exitReason, newPC
+	case PAGE_FAULT:
+		// (A.7) the faulting instruction changed nothing: the counter stays on it
+		return exitReason, pc
 	}
 
 	if pc != newPC {
